@@ -1082,6 +1082,9 @@ def resolve_const(body, op, depth=0):
         return resolve_const(body, ["c", r[1]], depth + 1)
     if r[0] == "cast":
         return resolve_const(body, r[2], depth + 1)
+    if r[0] == "agg" and r[1] == "adt" and not r[5]:
+        # a field-less enum variant built in place (`Rule::name`, `SecondsFormat::AutoSi`)
+        return {"adt": r[2], "variant": r[3]}
     return None
 
 
